@@ -122,6 +122,29 @@ def main(tier, seed):
             kinds["pairs_rerun_with_more_fuel"] = len(again)
         except core.CoqEvalError as e:
             run.obligation_broken("pairwise machine execution (longer runs)", str(e))
+    # both runs were cut by the fuel and agree on the common prefix, but one has far fewer effects: it may have
+    # stopped making progress (a return into the wrong place that loops without effects).  Run the pair with six
+    # times the fuel: if the lagging side then still has fewer effects than the other one had at the first fuel,
+    # it is at least six times slower, which no option does to a program -- reported as divergence
+    lag = [i for i, verd in enumerate(vs)
+           if any(t[0] == 0 and t[4] == 0 and t[5] == 0 and min(t[2], t[3]) * 3 + 20 < max(t[2], t[3]) for t in verd)]
+    if lag:
+        try:
+            vs3 = diffrun.tgt_vs_tgt_guard([quads[i] for i in lag], pipeline.SEEDS[:2], fuel=pipeline.FT * 6, name="c02lag")
+            for i, v3 in zip(lag, vs3):
+                new_verd = []
+                for t1, t6 in zip(vs[i], v3):
+                    if t6[0] != 0:
+                        new_verd.append(t6)
+                    elif t1[0] == 0 and t1[4] == 0 and t1[5] == 0 and (
+                            (t1[2] > t1[3] and t6[3] < t1[2] and t6[5] == 0) or (t1[3] > t1[2] and t6[2] < t1[3] and t6[4] == 0)):
+                        new_verd.append((6, min(t6[2], t6[3]), t6[2], t6[3], t6[4], t6[5]))
+                    else:
+                        new_verd.append(t1)
+                vs[i] = new_verd
+            kinds["pairs_rerun_for_lag"] = len(lag)
+        except core.CoqEvalError as e:
+            run.obligation_broken("pairwise machine execution (lagging runs)", str(e))
     nshown = 0
     for (name, src, v, base, r), verd in zip(qmeta, vs):
         run.count("evaluations")
